@@ -66,27 +66,41 @@ def run(ctx, ck) -> None:
         ck.expect('E3', dims, init, 'blocks with fewer than two dimensions are refused', 'blocks with fewer than 2 dimensions are no longer refused', instance='block rank', nontrivial=False)
 
     # ------------------------------------------------------------------ E3 rejections
-    def guards(fn):
-        out = []
-        for p in function_paths(fn):
-            if p.exit == 'raise' and exception_name(p.node) == 'ValueError':
-                e = path_env(p)
-                conds = p.conds()
-                if conds:
-                    ex, pol = conds[-1]
-                    out.append((term(ex, e), pol, term(ex), p))
-        return out
+    from ..terms import raise_paths
 
-    pg = guards(parse)
-    commas = any(t[0] == 'cmp' and t[1] == 'ne' and t[3] == ('const', '2') and "split(',')" in show(t).replace('"', "'") for t, pol, raw, _ in pg if pol)
-    arrow = any(t[0] == 'cmp' and t[1] == 'ne' and t[3] == ('const', '2') and "split('->')" in show(t).replace('"', "'") for t, pol, raw, _ in pg if pol)
+    pfacts = [fs for fs, _, _ in raise_paths(parse, 'ValueError')]
+    rfacts = [fs for fs, _, _ in raise_paths(rew, 'ValueError')]
+
+    def has_len_ne(facts_list, needle: str, n: str) -> bool:
+        for fs in facts_list:
+            for f in fs:
+                if f[0] == 'ne' and ('const', n) in f[1]:
+                    other = next(x for x in f[1] if x != ('const', n))
+                    txt = show(other).replace('"', "'")
+                    if txt.startswith('len(') and needle in txt:
+                        return True
+        return False
+
+    commas = has_len_ne(pfacts, "split(',')", '2')
+    arrow = has_len_ne(pfacts, "split('->')", '2')
     ck.expect('E3', commas, parse, 'anything but exactly two operands (one comma) is refused', 'subscripts without exactly one comma are no longer refused', instance='two operands')
     ck.expect('E3', arrow, parse, 'implicit mode (no ->) is refused', 'implicit-mode subscripts are no longer refused', instance='explicit mode')
-    rg = guards(rew)
-    raw_tests = [(raw, pol) for _, pol, raw, _ in rg]
-    one_sum = (('cmp', 'ne', ('call', ('var', 'len'), (('var', 'sum_axis_as_set'),), ()), ('const', '1')), True) in raw_tests
-    none_t = (('cmp', 'eq', ('call', ('var', 'len'), (('var', 'transpose_axis_as_set'),), ()), ('const', '0')), True) in raw_tests
-    many_t = (('cmp', 'gt', ('call', ('var', 'len'), (('var', 'transpose_axis_as_set'),), ()), ('const', '1')), True) in raw_tests
+    # raw (unsubstituted) facts: the sets are popped later, so compare on variable names
+    from ..paths import exception_name as _exc
+    from ..terms import atom_facts
+
+    raw = []
+    for p in function_paths(rew):
+        if p.exit == 'raise' and _exc(p.node) == 'ValueError':
+            conds = p.conds()
+            if conds:
+                ex, pol = conds[-1]
+                raw.append(atom_facts(ex, pol, {}))
+    len_sum = ('call', ('var', 'len'), (('var', 'sum_axis_as_set'),), ())
+    len_tr = ('call', ('var', 'len'), (('var', 'transpose_axis_as_set'),), ())
+    one_sum = any(('ne', frozenset({len_sum, ('const', '1')})) in fs for fs in raw)
+    none_t = any(('eq', frozenset({len_tr, ('const', '0')})) in fs or ('lt', len_tr, ('const', '1')) in fs for fs in raw)
+    many_t = any(('lt', ('const', '1'), len_tr) in fs or ('le', ('const', '2'), len_tr) in fs for fs in raw)
     ck.expect('E3', one_sum, rew, 'contraction count != 1 is refused', 'subscripts without exactly one contracted axis are no longer refused', instance='one contracted axis')
     ck.expect('E3', none_t, rew, 'no free block axis is refused', 'subscripts without a free block axis are no longer refused', instance='free axis present')
     ck.expect('E3', many_t, rew, 'several free block axes are refused', 'subscripts with several free block axes are no longer refused', instance='single free axis')
@@ -107,14 +121,14 @@ def run(ctx, ck) -> None:
     ck.expect('E3', e0.get('sum_axis_as_set') in want_sum, rew, 'the contracted letter is in both operands and not in the result', f'the contracted axis is computed as {show(e0.get("sum_axis_as_set"))}', instance='contracted letter')
     ck.expect('E3', e0.get('transpose_axis_as_set') in want_tr, rew, 'the free letter is in the blocks and the result and not in the input', f'the free axis is computed as {show(e0.get("transpose_axis_as_set"))}', instance='free letter')
     # layout guard: an exact, ordered string comparison expected_results != rights
-    layout = [(t, raw) for t, pol, raw, _ in rg if pol and raw[0] == 'cmp' and raw[1] == 'ne' and {raw[2], raw[3]} == {('var', 'expected_results'), ('var', 'rights')}]
-    ck.expect('E3', bool(layout), rew, 'the input layout must equal the output layout with the free letter replaced by the contracted one (ordered string comparison)',
+    layout = any(('ne', frozenset({('var', 'expected_results'), ('var', 'rights')})) in fs for fs in raw)
+    ck.expect('E3', layout, rew, 'the input layout must equal the output layout with the free letter replaced by the contracted one (ordered string comparison)',
               'the layout guard `expected_results != rights` (an ordered comparison of the subscript strings) is gone or weakened: subscripts whose input and output axis orders differ are transposed incorrectly instead of being refused', instance='layout guard')
     # the return is reached only after all guards
     rets = [p for p in function_paths(rew) if p.exit == 'return']
     ck.expect('E3', len(rets) == 1 and sum(1 for ev in rets[0].events if ev[0] == 'cond') >= 4, rew, 'the single return is dominated by all rejections',
               'the rewritten subscripts can be returned without passing all rejections', instance='return dominated')
-    ck.floor('E3', len(rg) + len(pg), 6, 'rejection guards')
+    ck.floor('E3', len(raw) + len(pfacts), 6, 'rejection guards')
 
 
 def _role_order(t, subs, blocks, x, env):
